@@ -310,6 +310,9 @@ def gen_history(rng, nclients, length, reopen=True, ticks=True, lib=True):
             if rng.random() < 0.3:
                 steps.append({"op": "GetChildVersion", "c": c, "arg": a})   # the C08 pair
             steps.append({"op": "AddVersion", "c": c, "arg": a})
+        elif r < 0.40:
+            # a client that lost a response sends an earlier accepted (parent, payload) pair once more
+            steps.append({"op": "AddVersion", "c": c, "replay": rng.randint(0, 4), "arg": {"sym": "nil"}})
         elif r < 0.56:
             steps.append({"op": "GetChildVersion", "c": c, "arg": arg(c)})
         elif r < 0.76:
